@@ -1,0 +1,14 @@
+//go:build verif
+
+package nclient6
+
+// VerifHook, when set by a verification harness before any client is
+// created, is called at the named interleaving points of the client.
+// It exists only in builds with the "verif" tag.
+var VerifHook func(point string)
+
+func verifPoint(p string) {
+	if h := VerifHook; h != nil {
+		h(p)
+	}
+}
